@@ -503,6 +503,7 @@ class Ir2PyHarness(Harness):
     cut_allowance = 10 ** 6      # loop unwinding cuts are expected and counted
     timeout_ms = 30000
     prove_timeout_ms = 20000
+    prove_fresh_smt = True       # the cvc5 fallback gets the original assertions, not z3's preprocessed solver state
     shim_modules = ()
 
     def __init__(self, spec):
